@@ -239,7 +239,10 @@ class _Names(object):
     def label(self):
         # enumeration / bit labels need not be unique across the module
         draw = self.draw
-        return draw(st.sampled_from(_LOW_START)) + draw(ctext(_ALNUM, min_size=0, max_size=5))
+        lab = draw(st.sampled_from(_LOW_START)) + draw(ctext(_ALNUM, min_size=0, max_size=5))
+        if self.prof['hyphens'] and draw(st.integers(0, 4)) == 0:
+            lab += '-' + draw(ctext(_ALNUM, min_size=1, max_size=4))
+        return lab
 
 
 class Builder(object):
@@ -856,7 +859,7 @@ def _gen_mc(b, mod):
         mname = None
         gpool = own_groups
         opool = own_objs
-        if i > 0 or draw(st.integers(0, 3)) == 0:
+        if (i > 0 and (None in seen_names or draw(st.booleans()))) or (i == 0 and draw(st.integers(0, 2)) == 0):
             if other:
                 mname = draw(st.sampled_from(other))
                 gpool = [g for g in b.groups if g['module'] == mname]
